@@ -491,7 +491,7 @@ impl Property for C08 {
     }
 
     fn cases(tier: Tier) -> u32 {
-        tier.pick(12_000, 400_000)
+        tier.pick(12_000, 1_000_000)
     }
 
     fn run(case: &Case, ctx: &mut Ctx) {
